@@ -30,7 +30,11 @@ type Conc struct {
 func (c Conc) Key(tok string) []byte {
 	switch c.Class {
 	case "binary":
-		// long shared prefix, 0x00 / 0xFF bytes, order of tokens preserved
+		// long shared prefix, 0x00 / 0xFF bytes, order of tokens preserved; the first key token is the EMPTY key (the embedded
+		// API accepts it; it sorts in front of everything)
+		if tok == "k1" {
+			return []byte{}
+		}
 		return append([]byte{0x00, 0xFF, 0x00, 'k', 0xFF, 0xFF}, []byte(tok)...)
 	case "big":
 		return append(bytes.Repeat([]byte("P"), 200), []byte(tok)...)
